@@ -79,6 +79,9 @@ def run_one(q, prop):
         r.reason = "MIR: %s" % e
         return r
     try:
+        from mirsym import modeb as _modeb
+        _modeb.FNS = fns
+        _modeb._summary_cache.clear()
         scripts = q.build(fns)
     except Exception as e:
         import traceback
